@@ -292,6 +292,9 @@ func initFmtExternals() {
 }
 
 func (i *interpreter) stdout(s value) {
+	if i.path != nil {
+		i.path.printed = append(i.path.printed, s)
+	}
 	if i.path != nil && len(i.path.observed) < 64 {
 		i.path.observed = append(i.path.observed, "stdout: "+goStr(s))
 	}
